@@ -138,6 +138,12 @@ Sync ==
         /\ Bind("price", price, price', LPriceAll(st))
         /\ Bind("vstat", vstat, vstat', LVStat(st))
         /\ Bind("deactEv", deactEv, deactEv', LDeact(st))
+        \* C06 does not decide which submissions are accepted, but freshness is measured from the stored record: an
+        \* accepted submission is stored as sent, stamped with the time and height of the block it arrived in
+        /\ ("vpstamp" \in Checked /\ Line.e = "Submit" /\ Line.o.ok /\ Line.a.shape = "wf") =>
+               LET m == MsgOf(Line.a.sps)
+                   obs == LVPrice(st)[Line.a.v]
+               IN \A s \in DOMAIN m : obs[s] = [st |-> m[s].st, price |-> m[s].price, ts |-> now, bh |-> h]
         /\ UNCHANGED out
 
 TraceNext == Act \/ Sync
